@@ -40,6 +40,10 @@ func main() {
 		err = admRun(os.Args[2:])
 	case "crash-run":
 		err = crashRun(os.Args[2:])
+	case "frozen-pairs":
+		for _, p := range l1.FrozenPairs() {
+			fmt.Println(p.Name)
+		}
 	case "reload-pilot":
 		err = l1.ReloadPilot(os.Stdout, scratchDir(""))
 	case "reload-run":
@@ -294,7 +298,6 @@ func l0Run(args []string) error {
 	return nil
 }
 
-
 // l0-conc: free-running concurrent histories (call/return traces for linearization checking).
 func l0Conc(args []string) error {
 	fs := flag.NewFlagSet("l0-conc", flag.ExitOnError)
@@ -343,7 +346,6 @@ func l0Conc(args []string) error {
 	return nil
 }
 
-
 // l1-conc: concurrent histories through the production wiring (pull HTTP, worker gRPC, ingress, push dispatcher).
 func l1Conc(args []string) error {
 	fs := flag.NewFlagSet("l1-conc", flag.ExitOnError)
@@ -379,7 +381,6 @@ func l1Conc(args []string) error {
 	fmt.Printf("{\"traces\":%d,\"events\":%d}\n", k, events)
 	return nil
 }
-
 
 // l1-nonce: execute replay schedules (ndjson: {"name":..., "ops":[...]}) on production-wired instances.
 func l1Nonce(args []string) error {
@@ -457,7 +458,6 @@ func l1Nonce(args []string) error {
 	fmt.Printf("{\"traces\":%d,\"events\":%d}\n", len(all), events)
 	return nil
 }
-
 
 // reload-run: execute interleavings / failed reloads / rollback scenarios listed in a job file (ndjson) and write the trace.
 func reloadRun(args []string) error {
@@ -537,6 +537,23 @@ func reloadRun(args []string) error {
 			}
 			_ = enc.Encode(map[string]any{"ev": "Reset", "tr": j.Name})
 			_ = enc.Encode(ev)
+		case "frozen":
+			var fp *l1.ReloadPair
+			for _, p := range l1.FrozenPairs() {
+				if p.Name == j.Pair {
+					q := p
+					fp = &q
+				}
+			}
+			if fp == nil {
+				return fmt.Errorf("unknown frozen pair %q", j.Pair)
+			}
+			ev, err := l1.FrozenReload(sd, *fp)
+			if err != nil {
+				return err
+			}
+			_ = enc.Encode(map[string]any{"ev": "Reset", "tr": j.Name})
+			_ = enc.Encode(ev)
 		case "rollback":
 			ev, err := l1.RollbackScenario(sd, j.Scenario)
 			if err != nil {
@@ -551,7 +568,6 @@ func reloadRun(args []string) error {
 	fmt.Printf("{\"jobs\":%d}\n", n)
 	return nil
 }
-
 
 // crash-run: jobs (ndjson: {"name","ops","crash","kill_at_ms","hitlog"}) -> kill-and-restart runs of the real binary.
 func crashRun(args []string) error {
@@ -660,7 +676,6 @@ func crashRun(args []string) error {
 	return nil
 }
 
-
 // adm-run: ingress admission on the production wiring: arrival sequences (rate limiters), size limits, fan-out.
 func admRun(args []string) error {
 	fs := flag.NewFlagSet("adm-run", flag.ExitOnError)
@@ -723,7 +738,6 @@ func admRun(args []string) error {
 	fmt.Printf("{\"traces\":%d,\"events\":%d}\n", traces+3, events)
 	return nil
 }
-
 
 // pull-run: lease-heavy driver schedules executed THROUGH the pull API (HTTP + gRPC) of production-wired instances.
 func pullRun(args []string) error {
